@@ -76,6 +76,7 @@ Definition prop_ok (c : case) : bool :=
       match x with
       | C08.CJoin _ _ _ _ _ _ out => wf (strip_fb out)
       | C08.CInterval _ _ _ _ _ out => wf (strip_fb out)
+      | C08.CJoinJob _ => true
       end && C08.prop_ok x
   | KReorder x =>
       match x with
